@@ -312,7 +312,10 @@ partial def loop (h : IO.FS.Stream) (s : St) : IO Unit := do
     | ["budgetExhausted"] =>
       -- the real run never came to rest: the harness stopped it after its budget of loop iterations (the history up to there
       -- has been followed; what it shows has been reported above)
-      IO.println s!"REJ {s.sc} {s.line} rest: the real system never comes to rest (loop-iteration budget exhausted while virtual time stands still or work never ends) || budget"
+      IO.println s!"REJ {s.sc} {s.line} rest: the real system never comes to rest (loop-iteration budget exhausted, or no runnable task and no timer left while tasks are blocked) || budget"
+      -- what is not complete now never will be: the clauses that speak about the state at rest are evaluated on the state the
+      -- run is stuck in
+      printVios (s.sc ++ "~") s.line (s.m.rest s.w)
       loop h { s with rejected := true, diverged := true }
     | ["rest"] =>
       if isRest s.w then
